@@ -36,14 +36,14 @@ import (
 
 // input describes how the honest message at a position is replaced.
 type input struct {
-	Kind string `json:"kind"` // mutate mutate2 bit trunc extend random nest envelope honest
-	Node int    `json:"node"`
-	Arg  int64  `json:"arg"`
-	Node2 int   `json:"node2,omitempty"`
-	Arg2  int64 `json:"arg2,omitempty"`
-	Size int    `json:"size,omitempty"`
-	Hex  string `json:"hex,omitempty"` // for random: the bytes (kept in the descriptor for replay)
-	Op   string `json:"op,omitempty"`  // for kind "op": the explicit mutation operator
+	Kind  string `json:"kind"` // mutate mutate2 bit trunc extend random nest envelope honest
+	Node  int    `json:"node"`
+	Arg   int64  `json:"arg"`
+	Node2 int    `json:"node2,omitempty"`
+	Arg2  int64  `json:"arg2,omitempty"`
+	Size  int    `json:"size,omitempty"`
+	Hex   string `json:"hex,omitempty"` // for random: the bytes (kept in the descriptor for replay)
+	Op    string `json:"op,omitempty"`  // for kind "op": the explicit mutation operator
 	// Resign: after the alteration every COSE_Sign1 of the honest message that one of the
 	// deployment's keys signed is signed again with that key (a credentialed but hostile peer)
 	Resign bool `json:"resign,omitempty"`
@@ -345,6 +345,11 @@ func transform0(honest []byte, in input) ([]byte, bool) {
 			kvs = append(append([]*refcbor.Node{}, tree.Items[len(tree.Items)-1].Items...), kvs...)
 		}
 		tree.Items[len(tree.Items)-1].Items = kvs
+		if len(tree.Items) == 3 && a/8%2 == 1 {
+			// owner message: this is also the final one (IsDone), so whatever the device modules
+			// answer can only be discarded
+			tree.Items[0], tree.Items[1] = refcbor.Bool(false), refcbor.Bool(true)
+		}
 		return refcbor.EncodeKeepOrder(tree), true
 	case "honest":
 		return honest, true
@@ -771,7 +776,12 @@ func evalClient(d caseDesc) ev.Result {
 		return []deploy.NamedModule{{Name: "probe", Mod: &deploy.ScriptOwnerModule{ModName: "probe", Steps: []deploy.OwnerStep{{Send: []deploy.KVMsg{{Name: "active", Body: tr}}}, {Send: []deploy.KVMsg{{Name: "x", Body: tr}}, Done: true}}}}}
 	}
 	dev := deploy.NewDevice(cfg, deploy.KeyDevice)
-	dev.Modules = map[string]serviceinfo.DeviceModule{"probe": &deploy.RecDeviceModule{}}
+	// the device module answers every message it receives with three small service infos
+	dev.Modules = map[string]serviceinfo.DeviceModule{"probe": &deploy.RecDeviceModule{OnReceive: func(name string, _ []byte, respond func(string) io.Writer, _ func()) {
+		for _, n := range []string{"r0", "r1", "r2"} {
+			_, _ = respond(n).Write([]byte{0xf5})
+		}
+	}}}
 	tag := fmt.Sprintf("client pos=%d cfg=%s/%s/%s input=%s(%d,%d)", d.Pos, cfg.Key, cfg.Kex, cfg.Cipher, d.In.Kind, d.In.Node, d.In.Arg)
 	hit := false
 	var delivered int
@@ -1243,8 +1253,11 @@ func TestC10(t *testing.T) {
 			}
 		}
 		for sz := 0; sz < 5; sz++ {
-			for a := int64(0); a < 8; a++ {
-				targets = append(targets, caseDesc{Side: "server", Pos: 68, Cfg: c, In: input{Kind: "manykv", Size: sz, Arg: a}}, caseDesc{Side: "client", Pos: 69, Cfg: c, In: input{Kind: "manykv", Size: sz, Arg: a}})
+			for a := int64(0); a < 16; a++ {
+				if a < 8 {
+					targets = append(targets, caseDesc{Side: "server", Pos: 68, Cfg: c, In: input{Kind: "manykv", Size: sz, Arg: a}})
+				}
+				targets = append(targets, caseDesc{Side: "client", Pos: 69, Cfg: c, In: input{Kind: "manykv", Size: sz, Arg: a}})
 			}
 		}
 		if strings.HasPrefix(cfgs[c].Cipher, "COSE") { // encrypt-then-MAC suites: hostile inner Encrypt0 under a correct MAC
@@ -1292,7 +1305,6 @@ func TestC10(t *testing.T) {
 		}
 	}, evalHTTP)
 	r.SetRule("targets-http", "client error messages naming every protocol, sent to a handler with all or only the TO2 responder configured")
-
 
 	// ---- sweep: every node × every applicable operator with key arguments ----
 	hostileIdx := func(v uint64) int64 {
